@@ -120,7 +120,7 @@ func (a *Activation) callContract(ins *ssa.Call, g *ssa.Function, spec *FuncSpec
 			if len(cs) > 1 {
 				l = fmt.Sprintf("%s.%d", label, k+1)
 			}
-			x.oblige(a.oname("pre@call:"+site), l, *rc, cj.Term, ins.Pos(), nil, "precondition of "+fullKey(g)+": "+cj.Text)
+			x.oblige(a.oname("pre@call:"+site), l, *rc, cj.Term, ins.Pos(), nil, "precondition of "+fullKey(g)+": "+cj.Text).setAlts(cj.Alts)
 		}
 	}
 	if spec.PanicsIff != nil {
